@@ -31,7 +31,7 @@ SPEC = {
                  "C20_skeleton_GetRunningBackgroundWorkers", "C20_skeleton_IsStopped", "C20_skeleton_IsRunning",
                  "C20_skeleton_ContextStopped", "C20_skeleton_type_OrderedDaemon", "C20_skeleton_type_worker",
                  "C20_running_list_ascending", "C20_running_list_complete", "C20_registered_all_running",
-                 "C20_reregistration_branch_dead"],
+                 "C20_reregistration_branch_dead", "C20_cancel_only_by_shutdown"],
     "trusted_base": [
         "hand-written protocol model Hive/Model/Daemon.lean of app/daemon/daemon.go (critical sections of d.lock atomic; "
         "lock-free reads as separate steps), tied by (a) differential execution of sequential histories against the model "
